@@ -37,7 +37,8 @@ Has(e, k) == k \in DOMAIN e
 ReasonClass(r) == "cancel=" \o r["Data.Cancel"] \o ",lasterr=" \o r["Data.LastErr"] \o ",cancelmessage=" \o r["Data.CancelMessage"]
                   \o (IF r["Data.Cancel"] = "present" THEN ",cancel.message=" \o r["Data.Cancel.Message"] ELSE "")
 
-ReasonSrcClass(r) == LET s == ReasonSrc(r) IN IF s \in {"none", "Data.LastErr"} THEN "" ELSE r[s]
+\* E2 applies to the reason when one of the texts it can come from holds invalid UTF-8
+ReasonHasBadUtf8(r) == \E f \in {"Data.Cancel.Message", "Data.LastErrString", "Data.CancelMessage"} : r[f] = "badutf8"
 \* one returned record o = [r, d, je, rq(, cq, ct, ck, ca, cf)] against record k of the model
 ObsBad(o, k, withCont) ==
     IF o.r # k THEN {"C14|store|returned-record-is-not-the-last-written|got=" \o ToString(o.r) \o "|want=" \o ToString(k)}
@@ -48,7 +49,7 @@ ObsBad(o, k, withCont) ==
           badf == {f \in look : Recs[k][f] # "na" /\ ~SameVal(Kind[f], got(f), Exp[k][f])}
           flip == \E f \in DOMAIN d : Kind[f] = "bytes"
       IN {"C14|field-not-restored|" \o f \o "|" \o Recs[k][f] : f \in badf}
-         \cup (IF ~o.rq /\ ~(Has(o, "rqn") /\ o.rqn /\ ReasonSrcClass(Recs[k]) = "badutf8")     \* E2: same reason as JSON text
+         \cup (IF ~o.rq /\ ~(Has(o, "rqn") /\ o.rqn /\ ReasonHasBadUtf8(Recs[k]))     \* E2: same reason as JSON text
                THEN {"C14|field-not-restored|cancel_reason|" \o ReasonClass(Recs[k])} ELSE {})
          \cup (IF ~o.je /\ ~HasBadUtf8[k] /\ ~flip /\ badf = {} /\ DOMAIN XD[k] \subseteq {"Data.LastErr"}
                THEN {"C14|field-not-restored|json-of-record|" \o RecLines[k].n} ELSE {})
@@ -81,7 +82,9 @@ Bad(e) ==
             IN IF gotids # ids THEN {"C14|store|" \o e.op \o "|got=" \o JoinIds(gotids) \o "|want=" \o JoinIds(ids)}
                ELSE UNION {ObsBad(e.items[i], disk[ids[i]], FALSE) : i \in 1..Len(ids)}
       [] e.op \in {"create", "update", "upsert"} /\ Has(e, "mut") ->
-            {"C14|store|" \o e.op \o "|changes-the-record-it-is-given|" \o f : f \in DOMAIN e.mut}
+            \* E1: the store makes LastErrString of the record it is given current; nothing else may change
+            {"C14|store|" \o e.op \o "|changes-the-record-it-is-given|" \o f :
+                f \in {g \in DOMAIN e.mut : ~(g = "Data.LastErrString" /\ e.mut[g] = "errtext" /\ Recs[e.r]["Data.LastErr"] = "some")}}
       [] OTHER -> {}
 
 NObs(e) == CASE e.op = "get" /\ e.res = "rec" -> 1
